@@ -277,6 +277,8 @@ def run_fixed(spec, ctx):
         kw["heading_ignore"] = [shown[0] if not subst or subst[0] != 0 else subst[1].split()[0]]
         if any(j.strip().startswith(kw["heading_ignore"][0]) for j in spec["junk"]):
             return None
+    if subst and fmt(shown).count(subst[1]) != 1:
+        return None          # the text to substitute also occurs across a column boundary of this header line
     lines.append(fmt(shown))
     lines.extend(fmt(r) for r in rows)
     if spec["footer"]:
